@@ -67,11 +67,32 @@ def _sha(s):
 _ADDR = re.compile(r"0x[0-9a-fA-F]+")
 
 
-def observe(text, mask):
+_SHARED = []
+
+
+def observe(text, mask, reuse=False):
     from yldprolog.compiler import compile_prolog_from_string
     o = opts_of(mask)
-    ctx = K.Ctx(debug_filename=o["debug_filename"], debug_parser=o["debug_parser"], debug_generator=o["debug_generator"],
-                current_source_file=SOURCE_NAME, outf=io.StringIO())
+    if reuse:
+        # "the same options" are the same option VALUES: one options object serves the whole process and is set up before each
+        # compilation; just before, it compiled the same text under other values (other file name, debug_filename flipped)
+        if not _SHARED:
+            _SHARED.append(K.Ctx(current_source_file='other.P', outf=io.StringIO()))
+        ctx = _SHARED[0]
+        ctx.debug_filename = not o["debug_filename"]
+        ctx.debug_parser = ctx.debug_generator = False
+        ctx.current_source_file = 'other/dir/file.P'
+        ctx.outf = io.StringIO()
+        try:
+            compile_prolog_from_string(text, ctx)
+        except Exception:       # noqa: B902
+            pass
+        ctx.debug_filename, ctx.debug_parser, ctx.debug_generator = o["debug_filename"], o["debug_parser"], o["debug_generator"]
+        ctx.current_source_file = SOURCE_NAME
+        ctx.outf = io.StringIO()
+    else:
+        ctx = K.Ctx(debug_filename=o["debug_filename"], debug_parser=o["debug_parser"], debug_generator=o["debug_generator"],
+                    current_source_file=SOURCE_NAME, outf=io.StringIO())
     try:
         ret = compile_prolog_from_string(text, ctx)
         ok = True
@@ -92,9 +113,9 @@ def worker():
     rng = random.Random(job.get("shuffle_seed", 0))
     out = {}
 
-    def obs(i, tag):
+    def obs(i, tag, reuse=False):
         key, text, mask = items[i]
-        r = observe(text, mask)
+        r = observe(text, mask, reuse)
         r["tag"] = tag
         out.setdefault(key, []).append(r)
     if mode == "fwd":
@@ -110,7 +131,7 @@ def worker():
     elif mode == "twice":
         for i in order:
             obs(i, job["tag"] + "/first")
-            obs(i, job["tag"] + "/again-immediately")
+            obs(i, job["tag"] + "/again-with-a-reused-options-object-that-held-other-values", reuse=True)
     elif mode == "shuf+again":
         rng.shuffle(order)
         for i in order:
